@@ -201,7 +201,7 @@ class Section(Entity):
                             "is the same as the source parent")
         sec = obj._parent._h5group.copy(source=src, dest=self._h5group,
                                         name=name, cls=clsname,
-                                        keep_id=keep_id)
+                                        shallow=not children, keep_id=keep_id)
 
         if not children:
             for prop in obj.props:
